@@ -7,6 +7,7 @@ pub mod c04;
 pub mod c05;
 pub mod c06;
 pub mod c07;
+pub mod c12;
 pub mod c13;
 pub mod c14;
 pub mod c15;
@@ -18,5 +19,5 @@ pub mod c20;
 use crate::framework::CheckSpec;
 
 pub fn all_specs() -> Vec<CheckSpec> {
-  vec![c01::spec(), c02::spec(), c03::spec(), c04::spec(), c05::spec(), c06::spec(), c07::spec(), c13::spec(), c14::spec(), c15::spec(), c17::spec(), c18::spec(), c19::spec(), c20::spec()]
+  vec![c01::spec(), c02::spec(), c03::spec(), c04::spec(), c05::spec(), c06::spec(), c07::spec(), c12::spec(), c13::spec(), c14::spec(), c15::spec(), c17::spec(), c18::spec(), c19::spec(), c20::spec()]
 }
